@@ -10,10 +10,13 @@ def check(tier, seed, replay=None):
                        "Generate and Validate repeatedly in a race-detector build: all outputs must be byte-identical, the File deep-equal before / after, no data race reported; "
                        "(b) repetition: ReadFile, Validate and Format repeated 12 times on every testdata file and on generated schemas: identical File, identical bytes; "
                        "the text of a Validate error may differ only as listed in the known finding; distinct = distinct (schema, mode)")
-    run.cov["trusted_base"] = TRUSTED_BASE_COMMON + ["the Go race detector as the witness of data races; the slice model of coq/sys/Sys.v (backing array, len, cap; append in place iff it fits)"]
+    run.cov["trusted_base"] = TRUSTED_BASE_COMMON + ["the Go race detector as the witness of data races; the slice model of coq/sys/Sys.v (backing array, len, cap; append in place iff it fits)",
+                                                     "translator T5 (go/cmd/t5): which receiver slices File.Generate appends to and whether each is cut to cap = len (or copied) before every append - decided "
+                                                     "syntactically (cut at top level or under `if len(G) != 0` with every append inside `range G`); any other use of a receiver slice is a translation failure"]
     broken = None
     try:
-        proof_step(run, "props/C14.v", ["C14_footprint"])
+        run_translator("t5", [os.path.join(REPO, "gen.go")], "gen/GenAppends.v", "T5(gen.go: File.Generate)")
+        proof_step(run, "props/C14.v", ["C14_footprint", "C14_appends"])
     except BrokenTie as e:
         broken = e
     try:
